@@ -378,9 +378,28 @@ func pItems(tier string) []proto.Item {
 			}
 		}
 	}
+	items = append(items, RouterThenDestination(300, 31)...)
 	// SACK probes overtaking each other / lost on the way to the target, around the 2^32 wrap: the list still ends at the
 	// lowest TTL the destination answered (5)
 	items = append(items, c05.ForwardReorder(tier, 300, 31)...)
+	return items
+}
+
+// RouterThenDestination: TTL t is answered by a router and, later, by the target itself (route change, ECMP): the
+// destination's answer overrides, so the list ends at t. Real drivers of the parallel engine over the wire.
+func RouterThenDestination(ipid, echo uint32) []proto.Item {
+	var items []proto.Item
+	for _, v := range proto.Variants {
+		vi := proto.Info(v)
+		if !vi.Parallel {
+			continue
+		}
+		for _, t := range []int{1, 2, 3} {
+			s := proto.Scn{Variant: v, First: 1, Last: 5, Dest: 4, IPIDBase: ipid, EchoBase: echo, TimeoutMs: 300, DelayMs: 10}
+			s.Inject = []proto.Inject{{OnTTL: t, AnswerTTL: t, Form: vi.DestForm, From: s.Target().String(), DelayUs: proto.DefaultDelayUs(t) + 25000, Tag: "destination-after-router", Genuine: true}}
+			items = append(items, proto.Item{Scn: s, Class: fmt.Sprintf("%s/router-then-destination-same-ttl", v), Note: map[string]string{"want_len": fmt.Sprint(t)}})
+		}
+	}
 	return items
 }
 
